@@ -30,7 +30,8 @@ func NewIndividualPage(document *gedcom.Document, individual *gedcom.IndividualN
 }
 
 func (c *IndividualPage) WriteHTMLTo(w io.Writer) (int64, error) {
-	name := c.individual.Names()[0]
+	// Name is nil for an individual without a name, which is safe to use.
+	name := c.individual.Name()
 
 	individualName := NewIndividualName(c.individual, c.options.LivingVisibility,
 		UnknownEmphasis)
